@@ -34,10 +34,10 @@ type Case struct {
 	PC      uint64      `json:"pc"`
 	LDSSize int         `json:"lds_size"`
 	Sets    []regSet    `json:"sets,omitempty"`
-	Tag     string      `json:"tag,omitempty"`   // modifier class exercised: abs neg clamp omod sdwa
-	Class   string      `json:"class"`           // corner | random
-	Sig     string      `json:"operand_kinds"`   // operand-kind signature
-	Backing int         `json:"backing"`         // 0 emu wavefront, 1 timing wavefront
+	Tag     string      `json:"tag,omitempty"` // modifier class exercised: abs neg clamp omod sdwa
+	Class   string      `json:"class"`         // corner | random
+	Sig     string      `json:"operand_kinds"` // operand-kind signature
+	Backing int         `json:"backing"`       // 0 emu wavefront, 1 timing wavefront
 	Idx     int         `json:"idx"`
 }
 
@@ -311,7 +311,7 @@ func tuples(doms []int) [][]uint64 {
 }
 
 func (j *job) caseBase(class string, idx int, seedMix uint64) *Case {
-	base := hash64(fmt.Sprintf("%s/%v/%d/%s", j.arch, j.format, j.opcode, class))
+	base := hash64(fmt.Sprintf("%v/%d/%s", j.format, j.opcode, class))
 	c := &Case{Arch: j.arch, Class: class, Idx: idx, LDSSize: 1024}
 	s := base ^ seedMix
 	c.BgSeed = mixu(s + uint64(idx)*0x9e3779b97f4a7c15)
@@ -342,7 +342,7 @@ func (j *job) gen(nRandom int, r *vlib.PRNG) []*Case {
 			out = append(out, c)
 		}
 	}
-	cr := vlib.NewPRNG(hash64(fmt.Sprintf("corner/%s/%v/%d", j.arch, j.format, j.opcode)))
+	cr := vlib.NewPRNG(hash64(fmt.Sprintf("corner/%v/%d", j.format, j.opcode)))
 	switch j.format {
 	case gcnasm.SOP2, gcnasm.SOPC, gcnasm.SOP1, gcnasm.SOPK:
 		add(j.genScalar("corner", cr, 0))
